@@ -62,6 +62,8 @@ MVPObj(ds, ns, lit) == [kind |-> "MVP", dens |-> ds, names |-> ns, lit |-> lit, 
 CObj(t, s)    == [kind |-> "C", den |-> t, sense |-> s, may |-> FALSE]
 CLObj(cs)     == [kind |-> "CL", cons |-> cs, may |-> FALSE]
 PObj(p)       == [kind |-> "S", den |-> Par(p), may |-> FALSE]
+\* VectorParameter: a container of scalar Parameters (no arithmetic of its own; elements are reached by index / iteration)
+VPObj(ps)     == [kind |-> "VP", pids |-> ps, may |-> FALSE]
 Raised(why)   == [kind |-> "X", why |-> why, may |-> FALSE]
 May(o)        == IF o.kind = "X" THEN o ELSE [o EXCEPT !.may = TRUE]
 
@@ -117,6 +119,11 @@ ApplyMkMat(c)  ==
     ELSE MObj([r \in 1..c.i |-> [q \in 1..c.j |->
                  IF c.k = 1 /\ q < r THEN <<c.s, q - 1, r - 1>> ELSE <<c.s, r - 1, q - 1>>]], c.k = 1)
 ApplyMkPar(c)  == PObj(c.i)                 \* i = parameter id; initial value in lit
+\* VectorParameter(name, size, values): i = id of the first element parameter, j = size; lit = initial values (array of
+\* that length, or one scalar for all); elements get consecutive ids
+ApplyMkVPar(c) == IF c.j <= 0 THEN Raised("must")
+                  ELSE IF ~(IsScalarLit(c.lit) \/ (Len(c.lit.sh) = 1 /\ c.lit.sh[1] = c.j)) THEN Raised("must")
+                  ELSE VPObj([k \in 1..c.j |-> c.i + k - 1])
 ApplyMkConst(c) == SObj(LitConst(c.lit))  \* Constant(literal)
 
 (* --- scalar arithmetic --- *)
@@ -147,6 +154,8 @@ ApplyIndex(c, h) ==
         (LET j == PyIndex(Len(o.names), c.i) IN IF j = -1 THEN Raised("must") ELSE SObj(Var(o.names[j + 1])))
     ELSE IF o.kind \in {"E", "MVP", "EP", "EU"} THEN
         (LET j == PyIndex(Len(o.dens), c.i) IN IF j = -1 THEN Raised("must") ELSE SObj(o.dens[j + 1]))
+    ELSE IF o.kind = "VP" THEN
+        (LET j == PyIndex(Len(o.pids), c.i) IN IF j = -1 THEN Raised("must") ELSE PObj(o.pids[j + 1]))
     ELSE Raised("type")
 \* the view's name as optyx renders it: f"{name}[{start or 0}:{stop or size}]" -- the step is not part of it
 SliceName(o, c) == o.vname \o <<IF c.i = NoneI \/ c.i = 0 THEN 0 ELSE c.i,
@@ -375,6 +384,7 @@ ApplyCore(c, h) ==
     [] c.c = "MkMat"     -> ApplyMkMat(c)
     [] c.c = "MkPar"     -> ApplyMkPar(c)
     [] c.c = "MkConst"   -> ApplyMkConst(c)
+    [] c.c = "MkVPar"    -> ApplyMkVPar(c)
     [] c.c = "SBin"      -> ApplySBin(c, h)
     [] c.c = "SBinLit"   -> ApplySBinLit(c, h, FALSE)
     [] c.c = "SRBinLit"  -> ApplySBinLit(c, h, TRUE)
